@@ -257,10 +257,11 @@ struct World {
     // -reindex as ImportBlocks / LoadExternalBlockFile do it: files blk00000.dat, blk00001.dat, ... until one is missing; inside a
     // file search the message start byte by byte, read the size, deserialize the block, record it with UpdateBlockInfo (instead
     // of WriteBlock) at the position found and continue behind it. Returns the number of blocks found.
-    int Reindex()
+    int Reindex(bool deferred)
     {
         NewManager();
-        int found = 0;
+        struct Found { std::string name; CBlock blk; FlatFilePos pos; };
+        std::vector<Found> found;
         const auto magic = Params().MessageStart();
         for (int n = 0; fs::exists(BlkPath(n)); ++n) {
             const int64_t len = RawFile::Len(BlkPath(n));
@@ -282,18 +283,22 @@ struct World {
                 std::string name;
                 for (const auto& b : blocks) if (Blk(b).hash == hash) name = b;
                 if (name.empty()) { ++o; continue; }
-                {
-                    LOCK(::cs_main);
-                    const FlatFilePos pos(n, (uint32_t)(o + 8));
-                    bm->UpdateBlockInfo(blk, height.at(name), pos);
-                    CBlockIndex* pi = index.at(name);
-                    pi->nFile = pos.nFile; pi->nDataPos = pos.nPos; pi->nUndoPos = 0; pi->nStatus |= BLOCK_HAVE_DATA;
-                }
-                ++found;
+                found.push_back({name, blk, FlatFilePos(n, (uint32_t)(o + 8))});
+                if (!deferred) Record(found.back().name, found.back().blk, found.back().pos);
                 o += 8 + size;
             }
         }
-        return found;
+        // out-of-order blocks: LoadExternalBlockFile keeps the position of a block whose parent is unknown and accepts it (from
+        // that position) once the parent has been seen; here: every block waits, the last one found is recorded first
+        if (deferred) for (auto it = found.rbegin(); it != found.rend(); ++it) Record(it->name, it->blk, it->pos);
+        return found.size();
+    }
+    void Record(const std::string& name, const CBlock& blk, const FlatFilePos& pos)
+    {
+        LOCK(::cs_main);
+        bm->UpdateBlockInfo(blk, height.at(name), pos);
+        CBlockIndex* pi = index.at(name);
+        pi->nFile = pos.nFile; pi->nDataPos = pos.nPos; pi->nUndoPos = 0; pi->nStatus |= BLOCK_HAVE_DATA;
     }
     ~World() { bm.reset(); std::error_code ec; std::filesystem::remove_all(dir, ec); }
 
@@ -329,7 +334,7 @@ struct World {
         }
         if (op == "reindex") {
             if (saved) throw std::runtime_error("reindex with an outstanding fault");
-            return UniValue{Reindex()};
+            return UniValue{Reindex(a[1].get_str() == "deferred")};
         }
         if (op == "prune") {
             const int n = a[1].getInt<int>();
